@@ -22,6 +22,8 @@ pub enum Call {
     Stream { op: u8, inl: InLen, out_cap: usize }, // op: 0 process 1 flush 2 finish 3 metadata
     Take(usize),
     SetParam(u32, u32),
+    /// set a custom dictionary (len, seed; `null`: the C side passes a NULL pointer with size 0)
+    SetDict(usize, u64, bool),
 }
 #[derive(Clone, Debug, Default)]
 pub struct Script {
@@ -100,6 +102,16 @@ pub fn parse_script(toks: &[&str]) -> Script {
                 let (h, rest) = call.split_at(1);
                 match h {
                     "t" => s.calls.push(Call::Take(rest.parse().unwrap())),
+                    "d" => {
+                        if rest == "N" {
+                            s.calls.push(Call::SetDict(0, 0, true));
+                        } else {
+                            let mut it = rest.split(':');
+                            let n: usize = it.next().unwrap().parse().unwrap();
+                            let sd: u64 = it.next().unwrap_or("1").parse().unwrap();
+                            s.calls.push(Call::SetDict(n, sd, false));
+                        }
+                    }
                     "s" => {
                         let mut it = rest.split(':');
                         let k: u32 = it.next().unwrap().parse().unwrap();
@@ -270,6 +282,16 @@ pub fn run_rust<A: BrotliAlloc, F: FnMut(&[u8], usize, &CallObs)>(
     for call in &sc.calls {
         let mut o = CallObs::default();
         match call {
+            Call::SetDict(n, sd, _null) => {
+                // (only the C13 harness scripts dictionaries; kept total for completeness)
+                o.kind = 'd';
+                let d = gen_data("text", *n, *sd);
+                let r = panic::catch_unwind(AssertUnwindSafe(|| st.set_custom_dictionary(d.len(), &d)));
+                match r {
+                    Ok(()) => o.ret = true,
+                    Err(e) => o.panic = Some(panic_msg(e)),
+                }
+            }
             Call::SetParam(k, v) => {
                 o.kind = 's';
                 let r = panic::catch_unwind(AssertUnwindSafe(|| st.set_parameter(param_of(*k), *v)));
@@ -440,6 +462,8 @@ pub trait Enc {
     fn remaining_meta(&mut self) -> Option<usize> {
         None
     }
+    /// set_custom_dictionary / BrotliEncoderSetCustomDictionary (`null`: NULL pointer, size 0)
+    fn set_dict(&mut self, _dict: &[u8], _null: bool) {}
 }
 
 pub struct RustEnc<A: BrotliAlloc> {
@@ -459,6 +483,9 @@ impl<A: BrotliAlloc> Drop for RustEnc<A> {
 impl<A: BrotliAlloc> Enc for RustEnc<A> {
     fn set_param(&mut self, id: u32, v: u32) -> bool {
         self.st.set_parameter(param_of(id), v)
+    }
+    fn set_dict(&mut self, dict: &[u8], _null: bool) {
+        self.st.set_custom_dictionary(dict.len(), dict)
     }
     fn stream(&mut self, op: u8, input: &[u8], out_cap: usize) -> (bool, usize, Vec<u8>, i64) {
         let mut outbuf = vec![0u8; out_cap];
@@ -581,6 +608,10 @@ pub mod cabi {
         fn set_param(&mut self, id: u32, v: u32) -> bool {
             unsafe { BrotliEncoderSetParameter(self.st, cparam(id), v) != 0 }
         }
+        fn set_dict(&mut self, dict: &[u8], null: bool) {
+            let p: *const u8 = if null || dict.is_empty() { core::ptr::null() } else { dict.as_ptr() };
+            unsafe { BrotliEncoderSetCustomDictionary(self.st, dict.len(), p) }
+        }
         fn stream(&mut self, op: u8, input: &[u8], out_cap: usize) -> (bool, usize, Vec<u8>, i64) {
             let mut outbuf = vec![0u8; out_cap];
             let mut avail_in = input.len();
@@ -642,6 +673,11 @@ pub fn run_physical<E: Enc>(e: &mut E, sc: &Script) -> (Vec<String>, Vec<u8>) {
             Call::SetParam(k, v) => {
                 let b = e.set_param(*k, *v);
                 format!("s {} 0 0 - {} {} {}", b as u8, e.finished() as u8, e.more() as u8, last_total)
+            }
+            Call::SetDict(n, sd, null) => {
+                let d = gen_data("text", *n, *sd);
+                e.set_dict(&d, *null);
+                format!("d 1 0 0 - {} {} {}", e.finished() as u8, e.more() as u8, last_total)
             }
             Call::Take(n) => {
                 let bs = e.take(*n);
